@@ -68,6 +68,38 @@ Proof.
   repeat split; try (vm_compute; reflexivity). vm_compute. discriminate.
 Qed.
 
+(* What "the advertised data of namespace r fails a check" means, spelled out:
+   r is blocked; or no rad/sigrefs is announced (refs_at) / advertised in scope
+   for it; or the announced object is unknown, has a bad signature (or does not
+   parse), or names another repository; or the server advertises a rad/id that
+   the object does not sign; or the object signs the name rad/sigrefs itself or
+   a name that is not a qualified reference name; or r's stored rad/sigrefs is
+   neither the announced commit nor an ancestor of it. *)
+Theorem C01_failing_namespace_untouched :
+  forall anc U c L S res L' r, sorted S ->
+    run anc U c L S = (res, L') ->
+    ( is_blocked c r = true \/
+      announced c S r = None \/
+      exists t, announced c S r = Some t /\
+        (lookup t U = None \/
+         exists o, lookup t U = Some o /\
+           (so_sig_ok o = false \/ so_root_ok o = false \/
+            (exists x, advertised_id c S r = Some x /\ lookup RAD_ID (so_content o) = None) \/
+            lookup SIGREFS (so_content o) <> None \/
+            (exists n v, lookup n (so_content o) = Some v /\ is_qualified n = false) \/
+            (exists a, sigrefs_of L r = Some a /\ a <> t /\ anc a t = false))) ) ->
+    ns_of L' r = ns_of L r.
+Proof. exact failing_namespace_untouched. Qed.
+
+(* Conversely, a changed namespace has passed all of them, and its stored
+   rad/sigrefs is exactly the announced / advertised object. *)
+Theorem C01_changed_namespace_passed_all_checks :
+  forall anc U c L S res L' r, sorted S ->
+    run anc U c L S = (res, L') ->
+    ns_of L' r <> ns_of L r ->
+    exists t o, accepted anc U c L S r t o /\ sigrefs_of L' r = Some t.
+Proof. exact changed_namespace_accepted. Qed.
+
 (* A namespace that is blocked -- on a pull that includes the local node's own
    namespace -- is never changed, whatever the server advertises or the
    announcement lists. *)
